@@ -119,4 +119,7 @@ ProbeVerdict(e) ==
  \cup (IF e.found = want THEN {} ELSE {"find_nodes_disagrees"})
  \cup (IF \A k \in 1..n : e.rindex[k] = k - 1 THEN {} ELSE {"r_index_wrong"})
  \cup (IF e.first = (IF Len(want) = 0 THEN 0 ELSE want[1]) THEN {} ELSE {"find_node_not_first"})
+ \* searches started at an inner node report exactly the applicable nodes of that subtree, in the same order
+ \cup (IF \A j \in 1..Len(e.subs) : LET sb == e.subs[j]  w == SelectSeq(want, LAMBDA k : k >= sb.lo /\ k <= sb.hi) IN
+            sb.found = w /\ sb.first = (IF Len(w) = 0 THEN 0 ELSE w[1]) THEN {} ELSE {"find_nodes_disagrees"})
 =============================================================================
